@@ -290,7 +290,7 @@ L1_EXEMPT = {
     # the count cannot reach 0 during connect; the demonstration attempt
     # (from_iter(0..3).replay().observable().take(1)) returns.  ref_count (plain Subject) is NOT
     # exempt: there the same shape deadlocks.
-    ("operators::replay::Replay::set_ref_count/COUNT_UP", "across emission"),
+    ("operators::replay::Replay/COUNT_UP", "across emission"),
 }
 
 
